@@ -1666,6 +1666,14 @@ import pandas as pd''', '''from pathlib import Path
 import functools
 import pandas as pd''')])
 
+M("C15", "R-cap-with-min-and-renamed-locals", RMNTF, '            if needs_ratio >= 1:\n                capped_ratio = 1\n            else:\n                capped_ratio = needs_ratio\n\n            net_pop_fed += capped_ratio * population\n            net_pop += population\n', '            people = population\n            share = min(1, needs_ratio)\n            net_pop += people\n            net_pop_fed += people * share\n', None)
+M("C15", "cap-at-one-and-a-half", RMNTF, '            if needs_ratio >= 1:\n                capped_ratio = 1\n            else:\n                capped_ratio = needs_ratio\n\n            net_pop_fed += capped_ratio * population\n            net_pop += population\n', '            if needs_ratio >= 1.5:\n                capped_ratio = 1.5\n            else:\n                capped_ratio = needs_ratio\n\n            net_pop_fed += capped_ratio * population\n            net_pop += population\n', "C15.ACC")
+M("C15", "outlier-countries-silently-dropped", RMNTF, '            if needs_ratio >= 1:\n                capped_ratio = 1\n            else:\n                capped_ratio = needs_ratio\n\n            net_pop_fed += capped_ratio * population\n            net_pop += population\n', '            if needs_ratio > 20:\n                continue\n            if needs_ratio >= 1:\n                capped_ratio = 1\n            else:\n                capped_ratio = needs_ratio\n\n            net_pop_fed += capped_ratio * population\n            net_pop += population\n', "C15.ACC")
+M("C15", "failed-country-still-in-denominator", RMNTF,
+  '''            if np.isnan(needs_ratio):
+                n_errors += 1''', '''            if np.isnan(needs_ratio):
+                net_pop += population
+                n_errors += 1''', "C15.ACC")
 # ---------------------------------------------------------------------------- runner
 
 COPY = ["src", "scenarios", "scripts", "plot_manuscript_figures.py", "tests"]
